@@ -51,7 +51,8 @@ def tasks(tier, seed):
         ts.append(dict(name=f'dense_forms_L{L}', op='dense_forms', L=L, d=2, Dmax=2, qmode='zero', cplx=True, cut=3))
     ts.append(dict(name='chained_L2', op='chained', L=2, d=2, Dmax=2 if not q else 1, qmode='zero', cplx=False, cut=3))
     # modulo the SVD contract
-    for nsites in (1, 2) if q else (1, 2, 3):
+    # (n = 3: three nested SVD contracts; the exactness identity is not provable within 5 multiplier rounds / 6e4 products -> not claimed)
+    for nsites in (1, 2):
         ts.append(dict(name=f'from_vector_n{nsites}', op='from_vector', L=nsites, d=2, qmode='zero', cplx=False, cut=6))
     for distr in ('left', 'right', 'sqrt'):
         ts.append(dict(name=f'split_merge_{distr}_zero', op='split', distr=distr, d0=2, d1=2, D0=1, D2=1, qmode='zero', cplx=False, cut=6))
